@@ -252,7 +252,7 @@ fn main() {
     }
     let depth = ctx.tier.pick(5, 7);
     let mut inits = Vec::new();
-    for cap in 1..=4u8 {
+    for cap in 1..=ctx.tier.pick(4u8, 5u8) {
         for start in 0..cap {
             for len in 0..=cap {
                 for src in 0..=2 * cap + 1 {
@@ -261,7 +261,7 @@ fn main() {
             }
         }
     }
-    ctx.rule(&format!("initial states: capacity 1..=4 x every prefill (start,len) x source length 0..=2cap+1 ({} states); actions next(), next_frames().take(k) for k in 0..=cap+1 (k=cap+1 observes the None), is_exhausted(); unmerged: every history to depth {depth} replayed on a fresh Buffered over an instrumented source; merged: stateright BFS to fixpoint on (ring start, ring len, pulled, delivered) through witness replay, horizon two refills past the source's end; oracle: delivered stream == prefill ++ source ++ equilibrium, source pulled exactly `capacity` times when an operation finds the ring empty and never otherwise, is_exhausted == (ring empty and source exhausted), until_exhausted() from every initial state == prefill ++ source ++ pad with pad < capacity; distinct by (initial state, history)", inits.len()));
+    ctx.rule(&format!("initial states: capacity 1..=4 (thorough 1..=5) x every prefill (start,len) x source length 0..=2cap+1 ({} states); actions next(), next_frames().take(k) for k in 0..=cap+1 (k=cap+1 observes the None), is_exhausted(); unmerged: every history to depth {depth} replayed on a fresh Buffered over an instrumented source; merged: stateright BFS to fixpoint on (ring start, ring len, pulled, delivered) through witness replay, horizon two refills past the source's end; oracle: delivered stream == prefill ++ source ++ equilibrium, source pulled exactly `capacity` times when an operation finds the ring empty and never otherwise, is_exhausted == (ring empty and source exhausted), until_exhausted() from every initial state == prefill ++ source ++ pad with pad < capacity; distinct by (initial state, history)", inits.len()));
     guard::set_hang_secs(300);
     let tot: Vec<(u64, u64)> = inits
         .par_iter()
